@@ -222,3 +222,14 @@ package volatility
 //@ ensures[C01] "as-implemented" forall k :: 0 <= k && k < len(result) ==> result[k] == sqrt(powr(smaS(pdS(closings, u.Period), u.Period)[k], 2))
 //@ guarantees[C01] "documented" forall k :: 0 <= k && k < len(result) ==> result[k] == ulcerS(closings, u.Period)[k]
 //@ ensures[C15] "non-negative" forall k :: 0 <= k && k < len(result) ==> result[k] >= 0
+
+// ---- C18: scaling of the volatility formulas ----------------------------------------------------------------------
+//@ lemma stdS_pscale(c stream, d stream, lam real, P int, k int)
+//@ requires[C18] lam > 0 && P >= 1 && k >= 0 && (forall j :: 0 <= j && j < k + P ==> d[j] == lam * c[j])
+//@ ensures[C18] stdS(d, P)[k] == lam * stdS(c, P)[k] && smaS(d, P)[k] == lam * smaS(c, P)[k]
+//@ use smaS_scale(c, d, lam, P, k)
+//@ use devsq_scale(c, d, lam, k, k + P, smaS(c, P)[k])
+//@ use devsq_nonneg(c, k, k + P, smaS(c, P)[k])
+//@ use div_scale(lam * lam, devsq(c, k, k + P, smaS(c, P)[k]), P)
+//@ use ratio_nonneg(devsq(c, k, k + P, smaS(c, P)[k]), P)
+//@ use sqrt_scale(lam, devsq(c, k, k + P, smaS(c, P)[k]) / P)
